@@ -133,6 +133,11 @@ class Env:
         from stabilize.events import reset_event_bus, reset_event_recorder
         reset_event_bus()
         reset_event_recorder()
+        try:   # a BaseException (simulated crash) inside a transaction block leaves the scope bound to the thread
+            from stabilize.events import txn_scope
+            txn_scope._local.scope = None
+        except Exception:
+            pass
 
     def _open(self, first=False):
         from stabilize import QueueProcessor, SqliteQueue, SqliteWorkflowStore, TaskRegistry
